@@ -528,31 +528,159 @@ def rule_fixed_rect(chk, prog):
         (r.bad if bad else r.ok)("cluster on rectangle 2 (30 x 18), boundary variables 7 / 8", fn.where(), bad or "")
 
 
+def _shared_node_expected(spec):
+    """spec: name -> (nodes, [child names]); returns ({(cluster, node): set(other clusters)}, {(lca, frozenset((a, b)))}) from all pairs of paths."""
+    paths = {}
+
+    def rec(nm, path):
+        path = path + [nm]
+        for c in spec[nm][1]:
+            rec(c, path)
+        for n in spec[nm][0]:
+            paths.setdefault(n, []).append(path)
+    rec("root", [])
+    repl, exc = {}, set()
+    for n, ps in paths.items():
+        for a in range(len(ps)):
+            for b in range(a):
+                pa, pb = ps[a], ps[b]
+                k = 0
+                while k < len(pa) and k < len(pb) and pa[k] == pb[k]:
+                    k += 1
+                ca = pa[k] if k < len(pa) else None
+                cb = pb[k] if k < len(pb) else None
+                exc.add((pa[k - 1], frozenset((ca or ("node", n), cb or ("node", n)))))
+                if ca and cb:
+                    repl.setdefault((ca, n), set()).add(cb)
+                    repl.setdefault((cb, n), set()).add(ca)
+    return repl, exc
+
+
+def _nonoverlap_groups(prog, spec, objs, want, n_nodes):
+    """Interprets the `if (noc)` block of recGenerateClusterVariablesAndConstraints for each cluster; returns None or the first deviation:
+    group(varId) must hold every member node and every child cluster plus every cluster that stands in for a shared node."""
+    fn = prog.fn("cola::ConstrainedFDLayout::recGenerateClusterVariablesAndConstraints")
+    blk = [n for n in fn.nodes() if n.get("k") == "IfStmt" and norm(n["cond"]) == "noc"]
+    if len(blk) != 1:
+        raise AnalysisBroken("recGenerateClusterVariablesAndConstraints: the `if (noc)` block was not found")
+    pd = {p_["name"]: p_["did"] for p_ in fn.params if p_.get("name")}
+    if "cluster" not in pd or "noc" not in pd:
+        raise AnalysisBroken("recGenerateClusterVariablesAndConstraints: parameters cluster / noc not found")
+    for nm, o in objs.items():
+        shapes, clusters = [], []
+        hooks = {"cola::NonOverlapConstraints::addShape": lambda it, n, env: shapes.append((int(it.ev(call_args(n)[0], env)), int(it.ev(call_args(n)[3], env)))),
+                 "cola::NonOverlapConstraints::addCluster": lambda it, n, env: clusters.append((it.ev(call_args(n)[0], env), int(it.ev(call_args(n)[1], env)))),
+                 "vpsc::Rectangle::width": lambda it, n, env: Fraction(10), "vpsc::Rectangle::height": lambda it, n, env: Fraction(10)}
+        it = Interp(prog, Oracle([]), hooks=hooks, max_steps=200000)
+        this = Obj("cola::ConstrainedFDLayout", {"boundingBoxes": Vec([Obj("vpsc::Rectangle", {}) for _ in range(n_nodes)], "vpsc::Rectangle *")})
+        env = {pd["cluster"]: Box(o), pd["noc"]: Box(Obj("cola::NonOverlapConstraints", {})), "this": this}
+        try:
+            it.ex(blk[0]["then"], env)
+        except Unsupported as e:
+            raise AnalysisBroken("non-overlap block of recGenerateClusterVariablesAndConstraints outside the interpreter subset (cluster %s): %s" % (nm, e))
+        grp = o.f["clusterVarId"]
+        if any(c is None for c, _ in clusters):
+            return "cluster %s: addCluster(nullptr, ...)" % nm
+        got_nodes = sorted(i for i, g_ in shapes if g_ == grp)
+        if got_nodes != sorted(spec[nm][0]):
+            return "cluster %s: its non-overlap group holds the nodes %s, expected its members %s" % (nm, got_nodes, sorted(spec[nm][0]))
+        got_cl = sorted(c.f["_name"] for c, g_ in clusters if g_ == grp)
+        want_cl = set(spec[nm][1])
+        for n_ in spec[nm][0]:
+            want_cl |= want.get((nm, n_), set())
+        if got_cl != sorted(want_cl):
+            return ("cluster %s: its non-overlap group holds the clusters %s, expected its child clusters and every cluster standing in for a shared "
+                    "node: %s -- the members of %s may end up inside %s" % (nm, got_cl, sorted(want_cl), nm, sorted(want_cl - set(got_cl))))
+        got_rep = sorted(i for i, g_ in shapes if g_ == grp + 1)
+        want_rep = sorted(n_ for (c_, n_) in want if c_ == nm)      # members of nm or of a cluster below it
+        if got_rep != want_rep:
+            return "cluster %s: the replaced nodes kept apart from each other are %s, expected %s" % (nm, got_rep, want_rep)
+    return None
+
+
+_SHARED_HIER = [
+    ("node 0 shared by two sibling clusters", {"root": ([], ["J", "K"]), "J": ([0, 1], []), "K": ([0, 2], [])}, 3),
+    ("node 0 shared by THREE sibling clusters", {"root": ([], ["J", "K", "L"]), "J": ([0, 1], []), "K": ([0, 2], []), "L": ([0, 3], [])}, 4),
+    ("nodes 0 and 1 shared by different pairs of three clusters", {"root": ([4], ["J", "K", "L"]), "J": ([0, 1], []), "K": ([0, 2], []), "L": ([1, 3], [])}, 5),
+    ("node 0 a child of cluster C and of C's parent (the root)", {"root": ([0, 2], ["C"]), "C": ([0, 1], [])}, 3),
+    ("two disjoint pairs of clusters share a node each", {"root": ([], ["J", "K", "L", "M"]), "J": ([0, 1], []), "K": ([0, 2], []), "L": ([3, 4], []), "M": ([3, 5], [])}, 6),
+]
+# Not modelled: sharing below a non-root parent or across depths.  The library reports unsatisfiable constraints for every such hierarchy
+# (100 of 100 random layouts each), so C08's precondition never holds there and nothing about them is a necessary condition of C08.
+
+
 def rule_shared_node_twins(chk, prog):
-    from ..sibling.mirror import mirror_blocks_equal
-    r = chk.rule("SHARED-NODE-TWINS", "RootCluster::calculateClusterPathsToEachNode, node shared by two sibling clusters J and K: BOTH clusters get the "
-                 "`the other cluster stands in for the shared node` entry -- the two statements are mirror images under J <-> K and neither is "
-                 "conditional on the other (an `else` makes the exclusive nodes of the first cluster lose every non-overlap pair against the "
-                 "second); RectangularCluster::clusterIsFromFixedRectangle is true for every rectangle index >= 0, index 0 included", floor=2)
+    from ..microai.interp import default_obj, MapVal
+    r = chk.rule("SHARED-NODE-TWINS", "RootCluster::calculateClusterPathsToEachNode interpreted on small cluster hierarchies in which a node has several "
+                 "parents (two and THREE sibling clusters sharing a node, different pairs sharing different nodes, a node that is a child of a cluster "
+                 "and of its parent, two disjoint sharing pairs): for every pair of paths to a node whose branches below "
+                 "the lowest common ancestor are clusters A and B, A's replacement entry for the node names B and B's names A (all of them, no entry "
+                 "lost to a later pair, none null, none extra), the node is in both clusters' replaced sets, and the ancestor exempts the pair from "
+                 "cluster-cluster non-overlap; RectangularCluster::clusterIsFromFixedRectangle is true for every rectangle index >= 0, index 0 "
+                 "included.  The second pass of ConstrainedFDLayout::recGenerateClusterVariablesAndConstraints (the `if (noc)` block), interpreted on that "
+                 "state for every cluster: its non-overlap group holds exactly its member nodes, its child clusters and every stand-in cluster", floor=11)
     fn = prog.fn("cola::RootCluster::calculateClusterPathsToEachNode")
-    ifs = {}
-    for n in fn.nodes():
-        if n.get("k") == "IfStmt" and norm(n["cond"]) in ("lcaChildJCluster", "lcaChildKCluster") and any(
-                "m_overlap_replacement_map" in norm(x) for x in walk(n.get("then") or {}) if x.get("k") in ("CXXOperatorCallExpr", "BinaryOperator")):
-            ifs[norm(n["cond"])] = n
-    r.count()
-    bad = None
-    if set(ifs) != {"lcaChildJCluster", "lcaChildKCluster"}:
-        raise AnalysisBroken("calculateClusterPathsToEachNode: the two replacement blocks were not found")
-    for nm, n in ifs.items():
-        other = "lcaChildKCluster" if nm.endswith("JCluster") else "lcaChildJCluster"
-        ats = atoms(path_condition(fn, n["then"], inline=False))
-        if other in ats:
-            bad = bad or "the replacement entry for %s is made only when %s is null" % (nm[8], other)
-    ok, where = mirror_blocks_equal(ifs["lcaChildJCluster"]["then"], ifs["lcaChildKCluster"]["then"], "j/k")
-    if not ok:
-        bad = bad or "the two replacement blocks are not mirror images under J <-> K: ...%s... vs ...%s..." % (where[0][-60:], where[1][-60:])
-    (r.bad if bad else r.ok)("replacement entries for both clusters", fn.loc(ifs["lcaChildKCluster"]), bad or "")
+    for name, spec, n_nodes in _SHARED_HIER:
+        objs = {}
+
+        def mk(nm):
+            kids = [mk(c) for c in spec[nm][1]]
+            o = default_obj(prog, "cola::RootCluster" if nm == "root" else "cola::RectangularCluster",
+                            {"nodes": SetVal(list(spec[nm][0])), "clusters": Vec(kids, "cola::Cluster *"), "m_rectangle_index": -1})
+            o.f["_name"] = nm
+            objs[nm] = o
+            return o
+        root = mk("root")
+        for k, nm in enumerate(sorted(objs)):
+            objs[nm].f["clusterVarId"] = 100 + 2 * k
+        it = Interp(prog, Oracle([]), max_steps=400000)
+        r.count()
+        try:
+            it.call(fn, root, None, None, arg_values=[n_nodes])
+        except Unsupported as e:
+            raise AnalysisBroken("calculateClusterPathsToEachNode outside the interpreter subset (%s): %s" % (name, e))
+        except AssertFail as e:
+            r.bad(name, fn.where(), "assertion fails: %s" % e)
+            continue
+        want, want_exc = _shared_node_expected(spec)
+        bad = None
+        for nm, o in objs.items():
+            mp = o.f.get("m_overlap_replacement_map")
+            got = {}
+            for key, val in (mp.d.items() if isinstance(mp, MapVal) else []):
+                vals = val.items if isinstance(val, Vec) else [val]
+                got[int(key)] = vals
+            for n_, vals in got.items():
+                if any(v is None for v in vals):
+                    bad = bad or "cluster %s records a NULL replacement cluster for node %d (NonOverlapConstraints::addCluster dereferences it)" % (nm, n_)
+                names = {v.f["_name"] for v in vals if v is not None}
+                extra = names - want.get((nm, n_), set())
+                if extra:
+                    bad = bad or "cluster %s replaces node %d by %s, which shares no such pair of paths" % (nm, n_, sorted(extra))
+            for (c, n_), others in want.items():
+                if c != nm:
+                    continue
+                names = {v.f["_name"] for v in got.get(n_, []) if v is not None}
+                if others - names:
+                    bad = bad or ("cluster %s: node %d is also a member of %s, but the replacement entry names only %s -- the exclusive nodes of %s "
+                                  "get no non-overlap constraints against %s" % (nm, n_, sorted(others), sorted(names), nm, sorted(others - names)))
+                rep = o.f.get("m_nodes_replaced_with_clusters")
+                if rep is None or n_ not in {int(x) for x in rep.items}:
+                    bad = bad or "cluster %s: shared node %d is not in m_nodes_replaced_with_clusters" % (nm, n_)
+        for lca, pair in want_exc:
+            ids = sorted((objs[x].f["clusterVarId"] if not isinstance(x, tuple) else x[1]) for x in pair)
+            if len(ids) == 1:
+                ids = ids * 2
+            ex = objs[lca].f.get("m_cluster_cluster_overlap_exceptions")
+            have = {tuple(sorted((int(sp.f["m_index1"]), int(sp.f["m_index2"])))) for sp in (ex.items if ex is not None else [])}
+            if tuple(ids) not in have:
+                bad = bad or "cluster %s does not exempt the overlapping pair %s from non-overlap (has %s)" % (lca, ids, sorted(have))
+        (r.bad if bad else r.ok)(name, fn.where(), bad or "")
+        # consumer side: the second pass of recGenerateClusterVariablesAndConstraints (`if (noc) {...}`) interpreted as a fragment for
+        # every non-root cluster of the hierarchy, on the state calculateClusterPathsToEachNode has just produced
+        bad2 = _nonoverlap_groups(prog, spec, objs, want, n_nodes)
+        r.count()
+        (r.bad if bad2 else r.ok)(name + " -- non-overlap groups", prog.fn("cola::ConstrainedFDLayout::recGenerateClusterVariablesAndConstraints").where(), bad2 or "")
     fx = prog.fn("cola::RectangularCluster::clusterIsFromFixedRectangle")
     r.count()
     res = {}
